@@ -37,19 +37,18 @@ Judge(rec) ==
             <<"rejects:" \o P.why, ~P.ok => rec.res # "body">>,
             <<"harness_parser_agrees", PyAgrees(rec, P)>> >>
     [] rec.kind = "exchange" ->
+         \* streams with more chunks than is practical for TLC are judged by the python mirror of Parse
+         LET reqv == IF rec.req_judge = "tlc" THEN ValidChunked(rec.req_stream) ELSE rec.req_pyvalid
+             respv == IF rec.resp_judge = "tlc" THEN ValidChunked(rec.resp_stream) ELSE rec.resp_pyvalid
+         IN
          << <<"exchange_completes", rec.res = "ok">>,
             <<"request_lossless", rec.res = "ok" => rec.delivered = "same">>,
             <<"response_lossless", rec.res = "ok" => rec.returned = "same">>,
             <<"request_framing_headers", FramingHeadersOK(rec.req_te, rec.req_cl, rec.req_len)>>,
             <<"response_framing_headers", rec.res = "ok" => FramingHeadersOK(rec.resp_te, rec.resp_cl, rec.resp_len)>>,
-            \* streams with more chunks than TLC's stack allows are judged by the python mirror of Parse
-            <<"request_framing_valid", rec.req_te => (IF rec.req_judge = "tlc" THEN ValidChunked(rec.req_stream)
-                                                                              ELSE rec.req_pyvalid)>>,
-            <<"response_framing_valid", rec.resp_te => (IF rec.resp_judge = "tlc" THEN ValidChunked(rec.resp_stream)
-                                                                                ELSE rec.resp_pyvalid)>>,
-            <<"harness_parser_agrees",
-              /\ (rec.req_te /\ rec.req_judge = "tlc") => (rec.req_pyvalid = ValidChunked(rec.req_stream))
-              /\ (rec.resp_te /\ rec.resp_judge = "tlc") => (rec.resp_pyvalid = ValidChunked(rec.resp_stream))>> >>
+            <<"request_framing_valid", rec.req_te => reqv>>,
+            <<"response_framing_valid", rec.resp_te => respv>>,
+            <<"harness_parser_agrees", (rec.req_te => (rec.req_pyvalid = reqv)) /\ (rec.resp_te => (rec.resp_pyvalid = respv))>> >>
     [] rec.kind = "coding" ->
          << <<"coding:" \o rec.damage \o ":" \o ExpectedCoding(rec, Registered),
               CodingOutcomeOK(ExpectedCoding(rec, Registered), rec.actual)>> >>
